@@ -213,3 +213,13 @@ def teardown_must_pass(sd, accessors):
             ok = not (set(sd.exits()) & sd.reachable(v, without_nodes=set(cs)))
         out[a] = ok
     return out
+
+
+def subscribed_conn_ids_once(prog):
+    """Service::subscribed_conn_ids collects the ids in a set before handing them out (each connection once)"""
+    sc = prog.one(r"^aldrin_broker::broker::service::Service::subscribed_conn_ids$")
+    SET = r"^(Hash|BTree)Set::new\(\)"
+    ret = sc.describe(["c", [0]])
+    ext = [c for c in sc.calls if c.name in ("extend", "insert") and any(re.match(SET + "$", x) for x in sc.describe(c.args[0]))]
+    ok = all(re.match(SET, x) for x in ret) and len(ext) >= 2 and any(c.name == "into_iter" and c.dest == [0] and any(re.match(SET + "$", x) for x in sc.describe(c.args[0])) for c in sc.calls)
+    return sc, ok, sorted(ret)
